@@ -156,7 +156,9 @@ hwloc_internal_memattrs_dup(struct hwloc_topology *new, struct hwloc_topology *o
   struct hwloc_internal_memattr_s *imattrs;
   hwloc_memattr_id_t id;
 
-  /* old->nr_memattrs is always > 0 thanks to default memattrs */
+  /* old->nr_memattrs is 0 (and old->memattrs NULL) when loaded with HWLOC_TOPOLOGY_FLAG_NO_MEMATTRS */
+  if (!old->nr_memattrs)
+    return 0;
 
   imattrs = hwloc_tma_malloc(tma, old->nr_memattrs * sizeof(*imattrs));
   if (!imattrs)
@@ -202,8 +204,10 @@ hwloc_internal_memattrs_dup(struct hwloc_topology *new, struct hwloc_topology *o
 
       nimtg->obj = NULL; /* cache will need refresh */
 
-      if (!oimtg->nr_initiators)
+      if (!oimtg->nr_initiators) {
+        nimtg->initiators = NULL; /* never share the old array */
         continue;
+      }
 
       nimtg->initiators = hwloc_tma_malloc(tma, oimtg->nr_initiators * sizeof(*nimtg->initiators));
       if (!nimtg->initiators) {
